@@ -178,3 +178,9 @@ Proof.
   - eapply G; [|exact He]. intros C. apply app_eq_nil in C as [C1 C2]. destruct Ho; congruence.
   - eapply G; [|exact He]. intros C. apply app_eq_nil in C as [C1 C2]. destruct Ho; congruence.
 Qed.
+
+(* retries (fix df72f46): an attempt after the first does not look at the client's headers again -
+   whatever the client holds by then, the retry's header map is the first attempt's *)
+Lemma retry_sends_first_attempt s ch ch' n :
+  rmerge_attempt (S n) (rmerge_attempt 0 s ch) ch' = rmerge_attempt 0 s ch.
+Proof. reflexivity. Qed.
